@@ -5,6 +5,10 @@ ROOT = os.path.dirname(os.path.dirname(os.path.abspath(__file__)))
 
 CLAIMED = {
  # id: (category, text, note, technique, design_ref)
+ "C11": ("exploration",
+         "Seeded crash/restart simulation per family: a primary and a never-crashed twin receive the identical PRNG-drawn history; the primary writes framed checkpoints (synced or not), is crashed at arbitrary points with the unsynced newest generation torn or surviving, and restarts from the newest verifiable generation through the real deserialize plus WAL replay; after every operation following a restart all public accessors must be equal bit for bit, images byte-identical where canonical and equal as independently decoded state otherwise, CpcWrapper equal to the sketch; compact theta takes part in the degenerate form (every delta width, both serial forms, byte-identical re-serialization); every run ends with the back-to-back checkpoint-crash-restart schedule plus a further update batch and merge.",
+         "Trusted: the harness frame CRC and durable WAL (the library only ever restores intact images); the twin (same real code, same history) is the oracle. One narrowly identified sub-class (Frequent Items purge after restore) is a recorded finding.",
+         "deterministic simulation: crash/restart at arbitrary points with torn/lost checkpoint generations and WAL replay vs never-crashed twin", "DESIGN.md §4 C11"),
  "C13": ("exploration",
          "Simulated foreign writers: an independent spec encoder turns PRNG-drawn abstract states into every image variant the Java/C++ writers emit (HLL compact and updatable list/set/array layouts, compact-flag arrays, both Hll4 aux layouts, out-of-order flag; theta serial versions 1-4 in empty/single/exact/estimating, ordered/unordered forms; t-digest native f64/f32 with buffered values and the reference asBytes/asSmallBytes encodings; Bloom dirty counts; Frequent Items longs/strings/empty; Count-Min over all counter types) and delivers them to real nodes, which must restore exactly the encoded state (accessors, estimates, flags), union/merge it with local sketches to the model union, keep it equal to the model under further updates, and re-serialize to an image the independent decoder reads back to the same state.",
          "Trusted base: the format transcription in DESIGN.md Appendix A (shared with C12) and the abstract-state models.",
